@@ -399,3 +399,93 @@ func H_Perp_ExecuteThenCancel() {
 	vrf.Assert(cerr == nil, "C20: after a failed execution the owner can still cancel the order")
 	vrf.Assert(s.w.BalOf(owner, usdc).Equal(wal.Add(o.Collateral.Amount)), "C20: after a failed execution and a cancel the owner holds everything")
 }
+
+// ---- isolation between order families and between orders ----
+
+// A spot order of `owner` and a perpetual order of `other` are created through the real handlers (both get the
+// first id of their own counter) and then one of them is cancelled by its owner: the other order's escrow,
+// its owner's funds and its pending status are untouched.
+//vrf:cover spot-cancelled perp-cancelled
+//vrf:bound 1 pending spot order + 1 pending perpetual order with the same numeric id, different owners; symbolic amounts
+func H_Isolation_SpotVsPerp() {
+	s := setup()
+	t := pickType()
+	a1, rate, c2, trig := vrf.Int("orderAmount"), vrf.Dec("orderPrice"), vrf.Int("collateral"), vrf.Dec("triggerPrice")
+	vrf.Assume(a1.IsPositive())
+	vrf.Assume(rate.IsPositive())
+	vrf.Assume(c2.IsPositive())
+	vrf.Assume(trig.IsPositive())
+	s.w.SetBal(owner, atom, a1)
+	s.w.SetBal(other, usdc, c2)
+	r1, err := s.srv.CreateSpotOrder(s.ctx, &tstypes.MsgCreateSpotOrder{OrderType: t, OrderPrice: tstypes.OrderPrice{BaseDenom: atom, QuoteDenom: usdc, Rate: rate},
+		OrderAmount: sdk.Coin{Denom: atom, Amount: a1}, OwnerAddress: owner.String(), OrderTargetDenom: usdc})
+	if err != nil {
+		return
+	}
+	r2, err := s.srv.CreatePerpetualOpenOrder(s.ctx, &tstypes.MsgCreatePerpetualOpenOrder{OwnerAddress: other.String(), TriggerPrice: tstypes.TriggerPrice{TradingAssetDenom: atom, Rate: trig},
+		Collateral: sdk.Coin{Denom: usdc, Amount: c2}, TradingAsset: atom, Position: pickPosition(),
+		Leverage: sdkmath.LegacyNewDec(2), TakeProfitPrice: sdkmath.LegacyNewDec(3), StopLossPrice: sdkmath.LegacyZeroDec(), PoolId: 1})
+	if err != nil {
+		return
+	}
+	escSpot, escPerp := tstypes.GetSpotOrderAddress(r1.OrderId), tstypes.GetPerpOrderAddress(r2.OrderId)
+	vrf.Assert(!escSpot.Equals(escPerp), "C20: a spot order and a perpetual order never share an escrow account")
+	if vrf.Bool("cancelSpot") {
+		_, err = s.srv.CancelSpotOrder(s.ctx, &tstypes.MsgCancelSpotOrder{OwnerAddress: owner.String(), OrderId: r1.OrderId})
+		vrf.Assert(err == nil, "C20: the owner can always cancel")
+		vrf.Cover("spot-cancelled")
+		vrf.Assert(s.w.BalOf(owner, atom).Equal(a1), "C20 isolation: the cancelling owner gets back exactly his own escrow (atom)")
+		vrf.Assert(s.w.BalOf(owner, usdc).IsZero(), "C20 isolation: the cancelling owner gets nothing of the other order's escrow")
+		vrf.Assert(s.total(other, escPerp, usdc).Equal(c2), "C20 isolation: the other owner's wallet + escrow is untouched by someone else's cancel")
+		_, found := s.k.GetPendingPerpetualOrder(s.ctx, r2.OrderId)
+		vrf.Assert(found, "C20 isolation: the other order is still pending")
+		_, err = s.srv.CancelPerpetualOrder(s.ctx, &tstypes.MsgCancelPerpetualOrder{OwnerAddress: other.String(), OrderId: r2.OrderId})
+		vrf.Assert(err == nil, "C20 isolation: the other owner can still cancel and")
+		vrf.Assert(s.w.BalOf(other, usdc).Equal(c2), "C20 isolation: gets his full collateral back")
+		return
+	}
+	_, err = s.srv.CancelPerpetualOrder(s.ctx, &tstypes.MsgCancelPerpetualOrder{OwnerAddress: other.String(), OrderId: r2.OrderId})
+	vrf.Assert(err == nil, "C20: the owner can always cancel")
+	vrf.Cover("perp-cancelled")
+	vrf.Assert(s.w.BalOf(other, usdc).Equal(c2), "C20 isolation: the cancelling owner gets back exactly his own escrow (usdc)")
+	vrf.Assert(s.w.BalOf(other, atom).IsZero(), "C20 isolation: the cancelling owner gets nothing of the other order's escrow")
+	vrf.Assert(s.total(owner, escSpot, atom).Equal(a1), "C20 isolation: the other owner's wallet + escrow is untouched by someone else's cancel")
+	_, found := s.k.GetPendingSpotOrder(s.ctx, r1.OrderId)
+	vrf.Assert(found, "C20 isolation: the other order is still pending")
+}
+
+// Two spot orders of different owners: cancelling one leaves the other's escrow alone.
+//vrf:cover cancelled
+//vrf:bound 2 pending spot orders (consecutive ids), different owners
+func H_Isolation_SpotVsSpot() {
+	s := setup()
+	a1, a2, rate := vrf.Int("orderAmount"), vrf.Int("orderAmount2"), vrf.Dec("orderPrice")
+	vrf.Assume(a1.IsPositive())
+	vrf.Assume(a2.IsPositive())
+	vrf.Assume(rate.IsPositive())
+	s.w.SetBal(owner, atom, a1)
+	s.w.SetBal(other, atom, a2)
+	mk := func(who sdk.AccAddress, amt sdkmath.Int) (uint64, error) {
+		r, err := s.srv.CreateSpotOrder(s.ctx, &tstypes.MsgCreateSpotOrder{OrderType: tstypes.SpotOrderType_LIMITSELL, OrderPrice: tstypes.OrderPrice{BaseDenom: atom, QuoteDenom: usdc, Rate: rate},
+			OrderAmount: sdk.Coin{Denom: atom, Amount: amt}, OwnerAddress: who.String(), OrderTargetDenom: usdc})
+		if err != nil {
+			return 0, err
+		}
+		return r.OrderId, nil
+	}
+	id1, err := mk(owner, a1)
+	if err != nil {
+		return
+	}
+	id2, err := mk(other, a2)
+	if err != nil {
+		return
+	}
+	vrf.Assert(id1 != id2, "C20: orders get distinct ids")
+	_, err = s.srv.CancelSpotOrder(s.ctx, &tstypes.MsgCancelSpotOrder{OwnerAddress: owner.String(), OrderId: id1})
+	vrf.Assert(err == nil, "C20: the owner can always cancel")
+	vrf.Cover("cancelled")
+	vrf.Assert(s.w.BalOf(owner, atom).Equal(a1), "C20 isolation: the cancelling owner gets back exactly his own escrow")
+	vrf.Assert(s.total(other, tstypes.GetSpotOrderAddress(id2), atom).Equal(a2), "C20 isolation: the other owner's wallet + escrow is untouched")
+	vrf.Assert(s.w.BalOf(tstypes.GetSpotOrderAddress(id2), atom).Equal(a2), "C20 isolation: the other order's escrow still holds its amount")
+}
